@@ -543,3 +543,13 @@ brk_on("RX-3", "on-RX-3-raw-store-into-staging-buffer", ["C16"],
     [("jpeg/standard/huffman_encoder.go", "	e.bits = (e.bits << uint(n)) | (bits & ((1 << uint(n)) - 1))\n",
       "	if n == 8 && e.nBits == 0 && e.n < huffmanEncoderChunk {\n		e.out[e.n] = byte(bits)\n		e.n++\n		return nil\n	}\n	e.bits = (e.bits << uint(n)) | (bits & ((1 << uint(n)) - 1))\n")],
     "OWNER-SINK", "HuffmanEncoder")
+
+# exponential allocation through a trip count (1 << bitsLen(maxVal)): seeded changes C09-3 / C09-9 build a LUT of
+# 2*(1<<bits_per_pixel) entries. Since fix d72aaa6 the JPEG-LS decoders validate the precision, so the patches alone are
+# harmless (benign entries); with the validation taken out again they must be reported.
+UNFIX_JLS = [("jpegls/lossless/decoder.go", "	if dec.bitDepth < 2 || dec.bitDepth > 16 {\n		return standard.ErrInvalidPrecision\n	}\n", ""),
+             ("jpegls/nearlossless/decoder.go", "	if dec.bitDepth < 2 || dec.bitDepth > 16 {\n		return standard.ErrInvalidPrecision\n	}\n", "")]
+for sid in ("C09-3", "C09-9"):
+    CATALOGUE.append(dict(name="seed-"+sid+"-on-validated-precision", kind="benign", props=["C08", "C09", "C17"], edits=[], rule="", where="", patch="seeded/"+sid+"/patch.diff"))
+    CATALOGUE.append(dict(name="seed-"+sid+"-precision-unvalidated-C08", kind="break", props=["C08"], edits=UNFIX_JLS, rule="MAKE", where="NewGradientQuantizerFor", patch="seeded/"+sid+"/patch.diff"))
+    CATALOGUE.append(dict(name="seed-"+sid+"-precision-unvalidated-C09", kind="break", props=["C09"], edits=UNFIX_JLS, rule="ALLOC-EXP", where="NewGradientQuantizerFor", patch="seeded/"+sid+"/patch.diff"))
